@@ -17,7 +17,7 @@ P = {
  "C05": ("context-sensitive effect closure of `status` and of `run` under dry_run=True (constant and partial() bindings propagated): no submit/cancel/delete/state mutation/process outside call(); one shared schedule(); decision table; filter construction and plain restriction of the computed table; printers total on the empty table",
          "terminal rendering and click are trusted; the call graph over-approximates unknown receivers by method name (sound for absence claims)",
          "interprocedural effect analysis with partial evaluation of guards"),
- "C06": ("NECESSARY CHAIN ONLY: success codes map to COMPLETED/UNKNOWN, finished/unknown jobs fall through to the file decision, strict comparison, accepted submissions recorded and marked SUBMITTED, exact dependency relation, prerequisites reach the scheduler. The fixpoint over run/execute/perturb histories is NOT decided (run-time mtimes)",
+ "C06": ("NECESSARY CHAIN ONLY (each link decided as in C01/C02/C03/C07/C08 incl. their evaluations): success codes map to COMPLETED/UNKNOWN, finished/unknown jobs fall through to the file decision, strict comparison, accepted submissions recorded and marked SUBMITTED, exact dependency relation, prerequisites reach the scheduler. The fixpoint over run/execute/perturb histories is NOT decided (run-time mtimes)",
          "each link is a necessary condition; convergence itself depends on run-time modification times and scheduler behaviour that no static argument bounds",
          "cross-property composition of table/path rules"),
  "C07": ("template-domain evaluation of every submit_target: with prerequisites [id1,id2,id3] the argv carries afterok:id1:id2:id3 / -hold_jid id1,id2,id3 / -w done(..)&&..; none when empty; ids stripped at the source; id list by name; local chain client->wire->scheduler->coroutine plus the C11 typestate",
@@ -55,7 +55,8 @@ P = {
  "C20": ("FileConfig.get/__setitem__/__delitem__/get_namespace evaluated abstractly on witness configurations (falsy values, coercion chain, default-only keys, prefix-sharing namespaces); CLI sub-commands; flag>config>default expressions for backend and colour (verbosity: known finding); namespace -> factory -> Ops field -> use site",
          "JSON value round-trip is stdlib behaviour and trusted", "abstract evaluation of pure accessors + structural precedence rules"),
 }
-W = "abstract evaluation (interpreter of a pure Python subset, every external effect a recording hook) of the deciding function over a finite branch-covering witness table"
+W = ("abstract evaluation (gwfsa's own interpreter of a Python subset over symbolic objects, every external effect a recording hook; /repo is never imported or run) of the "
+     "deciding function / whole command / task coroutine over a finite witness table incl. fault and cancellation injection; a structural verdict is overridden only by an agreeing evaluation")
 ADD = {
  "C01": ("; should_run evaluated over 28 witness rows (ties, orders, missing/no outputs, spec changed); the use_spec_hashes switch read-back; snapshot per instance, follows symlinks; spec store loads what was saved", W),
  "C02": ("; filter_names evaluated over 15 pattern sets x list/one-shot iterables; opaque job ids (0 is a valid id); composition with C01 for the 'stale' column", W),
@@ -66,8 +67,8 @@ ADD = {
  "C08": ("; Slurm state query evaluated with failing sacct/squeue; factory default accounting on; config switch read-back; store load/close round trip", W),
  "C09": ("; state-query failures of all three cluster backends propagate; load(file)=table and close-after-submit scenarios evaluated", W),
  "C10": ("; clean_logs config switch read-back; Slurm log_mode factory default", W),
- "C11": ("; enqueue_task hands deps on unchanged (no rebinding)", None),
- "C12": ("; composition with C13.R6: a released core corresponds to a SIGKILLed, reaped process group", None),
+ "C11": ("; enqueue_task hands deps on unchanged (no rebinding); the task coroutine evaluated over dependency outcomes incl. late submission", W),
+ "C12": ("; composition with C13.R6: a released core corresponds to a SIGKILLed, reaped process group; semaphore balance of the evaluated coroutine under a cancellation at every await", W),
  "C13": ("; SIGKILL to the group on every exit with a process; no use of the process on the no-process path; no bare wait() on undrained PIPEs; RUNNING while the process runs; enqueue registers SUBMITTED", W),
  "C14": ("; nothing shared between connections is held across a client-paced await; connection handler / client / enqueue evaluated on well-formed, EOF-only, shutdown and unknown-kind sessions", W),
  "C15": ("; name filter witness table; --all/--force flag defaults", W),
